@@ -1,5 +1,6 @@
 (** Pins for C11: the statements written out, so that no theorem is weakened quietly. *)
-From TucModel Require Import Base.Bytes Base.ListX Model.Scan Model.CutStr Proofs.C11 Properties.C11.
+From TucModel Require Import Base.Bytes Base.ListX Model.Bounds Model.Scan Model.Opt Model.CutStr Model.FastLane
+     Proofs.C06 Proofs.C11 Proofs.C11Run Properties.C11.
 
 
 Check C11_records :
@@ -38,3 +39,24 @@ Print Assumptions C11_compress_is_value_blind.
 Check C11_swap_is_a_renaming :
   forall a b : byte, swap a = swap b -> a = b.
 Print Assumptions C11_swap_is_a_renaming.
+
+Check C11_general_path :
+  forall (o : opt) (input : bytes),
+    o_regex o = None -> o_json o = false -> neutral_texts o ->
+    read_and_cut_str (with_eol (swap (o_eol o)) o) (map swap input)
+    = option_map (rename_outcome swap) (read_and_cut_str o input).
+Print Assumptions C11_general_path.
+
+Check C11_general_path_is_value_blind :
+  forall f : byte -> byte, (forall a b, f a = f b -> a = b) ->
+  forall (o : opt) (input : bytes), o_regex o = None -> o_json o = false ->
+    read_and_cut_str (rename_opt f o) (map f input)
+    = option_map (rename_outcome f) (read_and_cut_str o input).
+Print Assumptions C11_general_path_is_value_blind.
+
+Check C11_fast_lane :
+  forall (o : opt) (l : list bof) (input : bytes),
+    fast_eligible o = true -> from_vec l = Some (o_bounds o) -> Forall item_nz l -> neutral_texts o ->
+    read_and_cut_fast (with_eol (swap (o_eol o)) o) (map swap input)
+    = option_map (rename_outcome swap) (read_and_cut_fast o input).
+Print Assumptions C11_fast_lane.
